@@ -440,7 +440,7 @@ class C19(Prop):
     clauses = ['idempotent', 'alias_preserved', 'mode_enforced', 'untouched_preserved', 'dict_roundtrip',
                'twin_same', 'slots_preserved', 'envelope_roundtrip', 'sequence_independent',
                'decode_independent_of_earlier_results', 'bulk_descriptions_keep_normal_form',
-               'refusal_leaves_siblings']
+               'refusal_leaves_siblings', 'client_slots_readable', 'client_slots_keep_placement']
     corr_name = ('Descr.Model(construct/as_dict/verify over Gen.Descr.td_table, pd_verify over pd_table; '
                  'slots_to_new/slots_to_old/slot_ctor; transport) vs TaskDescription/PilotDescription/ru.TypedDict, convert_slots_to_new/_old/Slot, PythonTask')
     rule = ('corpus; for every alias block a family of descriptions giving the deprecated name alone (several values, '
@@ -783,6 +783,27 @@ class C19(Prop):
             calls = [c[:1] if i == 0 and rng.random() < 0.3 else c for i, c in enumerate(calls)]
         return {'kind': 'bulk', 'shape': shape, 'srcs': srcs, 'calls': calls}
 
+    # who writes task['slots']
+    WRITERS = ['node_find_slot',     # agent schedulers (Continuous & co): Slot objects from the REAL Node.find_slot
+               'app_new',            # td.slots given by the application in the new format: REAL td.verify().as_dict()
+               'app_old',            # ... in the old format (int indices): REAL td.verify().as_dict()
+               'raptor_default',     # REAL raptor DefaultWorker._alloc: [{'cores': [..], 'gpus': [..]}] and nothing else
+               'subagent_old',       # agent_0 sub-agent pseudo task (shape mirrored): complete old format, RO objects
+               'old_complete',       # complete old format with int indices (shape mirrored)
+               'hombre',             # hombre scheduler chunk (shape mirrored): a dict {'ranks': [...], ...}
+               'none', 'empty']
+
+    def _client_case(self, rng, writer=None, transported=None, n=None):
+        writer = writer or rng.choice(self.WRITERS)
+        n = n or rng.randint(1, 3)
+        specs = []
+        for _ in range(n):
+            specs.append({'nidx': rng.randint(0, 5), 'cores': rng.randint(0 if writer != 'raptor_default' else 1, 3),
+                          'gpus': rng.randint(0, 2), 'lfs': rng.choice([0, 0, 10]), 'mem': rng.choice([0, 0, 5])})
+        return {'kind': 'client', 'writer': writer, 'specs': specs,
+                'transported': rng.random() < 0.6 if transported is None else transported,
+                'second_update': rng.choice([None, None, 'none', 'again'])}
+
     DEC_ARGS = [['a', 'b'], 1, {'k': 1}]
     DEC_KW = {'extra': {'k': 1}, 'comm': None, 'items': ['x']}
 
@@ -896,6 +917,13 @@ class C19(Prop):
                    'args': [rng.choice(pool) for _ in range(rng.randint(0, 3))],
                    'kwargs': None if rng.random() < 0.3 else
                    {k: rng.choice(pool) for k in rng.sample(['p', 'q', 'n'], rng.randint(0, 2))}}
+        # the client reads what every writer of task['slots'] leaves
+        for writer in self.WRITERS:
+            for transported in (True, False):
+                for n in (1, 2):
+                    yield self._client_case(rng, writer, transported, n)
+        for _ in range(40 if tier == 'quick' else 1200):
+            yield self._client_case(rng)
         # TaskManager.submit_tasks on bulks: a description with an application-chosen uid followed by
         # each kind of refused description; duplicates; the same object twice; then random ones
         for bad in self.REFUSED:
@@ -1092,7 +1120,7 @@ class C19(Prop):
             if not all(isinstance(x, RO) for x in r): raise ValueError('mixed resource list')
             return ['ros', [[x['index'], q(x['occupation'])] for x in r]]
         if type(e) is dict:
-            if not all(type(x) is dict and set(x) == {'index', 'occupation'} for x in r): raise ValueError('mixed')
+            if not all(type(x) is dict and set(x) >= {'index', 'occupation'} for x in r): raise ValueError('mixed')
             return ['dicts', [[x['index'], q(x['occupation'])] for x in r]]
         if isinstance(e, bool):
             raise ValueError('bool index')
@@ -1339,6 +1367,133 @@ class C19(Prop):
             raise RuntimeError(out['err'])
         return out['ok']
 
+    def _write_slots(self, case):
+        """What the named writer leaves in task['slots'] -- produced by the real writer where the case
+        says REAL, otherwise a literal copy of the structure the writer builds."""
+        import threading
+        from unittest import mock
+        from radical.pilot.resource_config import Node, RO, RankRequirements
+        w, specs = case['writer'], case['specs']
+        if w == 'none':
+            return None
+        if w == 'empty':
+            return []
+        if w == 'hombre':
+            return {'ranks': [{'name': 'node%02d' % sp['nidx'], 'index': sp['nidx'],
+                               'cores': list(range(sp['cores'])), 'gpus': list(range(sp['gpus']))} for sp in specs],
+                    'ncblocks': len(specs), 'ngblocks': 0}
+        out = []
+        for sp in specs:
+            name = 'node%02d' % sp['nidx']
+            if w == 'node_find_slot':
+                node = Node({'index': sp['nidx'], 'name': name, 'lfs': 100, 'mem': 100,
+                             'cores': [RO(index=i, occupation=0.0) for i in range(4)],
+                             'gpus': [RO(index=i, occupation=0.0) for i in range(2)]})
+                sl = node.find_slot(RankRequirements(n_cores=sp['cores'], n_gpus=sp['gpus'], lfs=sp['lfs'], mem=sp['mem']))
+                if sl is None:
+                    raise RuntimeError('Node.find_slot found nothing')
+                out.append(sl)
+            elif w in ('app_new', 'app_old'):
+                if w == 'app_new':
+                    c = [{'index': i, 'occupation': 1.0} for i in range(sp['cores'])]
+                    g = [{'index': i, 'occupation': 0.5} for i in range(sp['gpus'])]
+                    given = {'cores': c, 'gpus': g, 'lfs': sp['lfs'], 'mem': sp['mem'], 'node_index': sp['nidx'],
+                             'node_name': name, 'version': 1}
+                else:
+                    given = {'cores': list(range(sp['cores'])), 'gpus': list(range(sp['gpus'])), 'lfs': sp['lfs'],
+                             'mem': sp['mem'], 'node_index': sp['nidx'], 'node_name': name}
+                td = self.rp.TaskDescription({'executable': 'x', 'slots': [given]})
+                td.verify()
+                out.extend(td.as_dict()['slots'])
+            elif w == 'raptor_default':
+                from radical.pilot.raptor.worker_default import DefaultWorker
+                with mock.patch.object(DefaultWorker, '__init__', return_value=None):
+                    wk = DefaultWorker()
+                wk._rlock, wk._prof = threading.Lock(), mock.Mock()
+                wk._n_cores, wk._n_gpus = 4, 2
+                wk._resources = {'cores': [0] * 4, 'gpus': [0] * 2}
+                t = {'uid': 'task.x', 'cores': sp['cores'], 'gpus': sp['gpus']}
+                if not wk._alloc(t):
+                    raise RuntimeError('DefaultWorker._alloc failed')
+                out.extend(t['slots'])
+            elif w == 'subagent_old':
+                out.append({'node_name': name, 'node_index': sp['nidx'],
+                            'cores': [RO(index=i, occuapation=1.0) for i in range(sp['cores'])],   # sic (agent_0)
+                            'gpus': [RO(index=i, occuapation=1.0) for i in range(sp['gpus'])], 'lfs': 0, 'mem': 0})
+            elif w == 'old_complete':
+                out.append({'node_name': name, 'node_index': sp['nidx'], 'cores': list(range(sp['cores'])),
+                            'gpus': list(range(sp['gpus'])), 'lfs': sp['lfs'], 'mem': sp['mem']})
+            else:
+                raise RuntimeError(w)
+        return out
+
+    def _tag_pslot(self, s):
+        from radical.pilot.resource_config import Slot
+        typed = isinstance(s, Slot)
+        if not typed and type(s) is not dict:
+            raise ValueError('slot is a %s' % type(s).__name__)
+        known = {'cores', 'gpus', 'lfs', 'mem', 'node_index', 'node_name', 'version'}
+        if not ({'cores', 'gpus'} <= set(s.keys()) <= known):
+            raise ValueError('slot keys %s' % sorted(s.keys()))
+        for k in ('lfs', 'mem', 'node_index', 'version'):
+            if k in s and s[k] is not None and type(s[k]) is not int:
+                raise ValueError('%s is %r' % (k, s[k]))
+        g = lambda k: s[k] if k in s.keys() else None
+        return {'typed': typed, 'version': g('version'), 'cores': self._tag_res(s['cores']),
+                'gpus': self._tag_res(s['gpus']), 'lfs': g('lfs'), 'mem': g('mem'), 'nidx': g('node_index'),
+                'nname': g('node_name')}
+
+    def _run_client(self, case):
+        """A real Task (built without __init__) gets the writer's slots through the real Task._update;
+        then Task.slots (twice) and Task.as_dict() are read."""
+        import threading
+        from unittest import mock
+        import radical.utils as ru
+        import radical.pilot.states as rps
+        from radical.pilot.task import Task
+        written = self._write_slots(case)
+        if case['transported'] and written is not None:
+            written = ru.as_dict(written)           # what the message layer delivers: plain dicts
+        obs = {'written': 'hombre' if isinstance(written, dict) else
+                          None if written is None else [self._tag_pslot(s) for s in written]}
+        with mock.patch.object(Task, '__init__', return_value=None):
+            t = Task()
+        t._uid, t._state, t._log, t._slots = 'task.000000', rps.AGENT_SCHEDULING, mock.Mock(), None
+        t._descr = self.rp.TaskDescription({'executable': 'x', 'uid': 'task.000000'})
+        t._tmgr, t._session = mock.Mock(), mock.Mock()
+        t._tmgr.uid = 'tmgr.0000'
+        for a in ('origin', 'exit_code', 'stdout', 'stderr', 'return_value', 'exception', 'exception_detail', 'pilot',
+                  'endpoint_fs', 'resource_sandbox', 'session_sandbox', 'pilot_sandbox', 'task_sandbox',
+                  'client_sandbox', 'info', 'partition', 'ofiles'):
+            setattr(t, '_' + a, None)
+        t._info_evt, t._callbacks = threading.Event(), {}
+        inv = {v: k for k, v in rps._task_state_values.items()}
+        nxt = lambda st: inv[rps._task_state_values[st] + 1]
+        msg = {'uid': t._uid, 'state': nxt(t._state)}
+        if written is not None:
+            msg['slots'] = written
+        t._update(msg)
+        if case['second_update']:
+            msg2 = {'uid': t._uid, 'state': nxt(t._state)}
+            if case['second_update'] == 'again' and written is not None:
+                msg2['slots'] = copy.deepcopy(written) if not isinstance(written, dict) else written
+            t._update(msg2)
+        try:
+            first = t.slots
+            obs['slots'] = [] if first is None else [self._tag_pslot(s) for s in first]
+        except (KeyError, TypeError, ValueError, AttributeError, IndexError) as e:
+            obs['slots'] = {'exc': exc_name(e), 'msg': str(e)[:80]}
+        try:
+            d = t.as_dict()
+            obs['as_dict'] = 'ok'
+            second = d['slots']
+            obs['again_same'] = ('exc' not in obs['slots'] and
+                                 ([] if second is None else [self._tag_pslot(s) for s in second]) == obs['slots'])
+        except (KeyError, TypeError, ValueError, AttributeError, IndexError) as e:
+            obs['as_dict'] = exc_name(e)
+            obs['again_same'] = False
+        return obs
+
     def _bulk_run(self, srcs, calls):
         """The real TaskManager.submit_tasks (TaskManager built without __init__; advance() records) on
         fresh description objects made from `srcs`.  Generated uids are renamed GEN<k> in the order
@@ -1506,6 +1661,8 @@ class C19(Prop):
         return {'fresh': out}
 
     def _run_case(self, case):
+        if case['kind'] == 'client':
+            return self._run_client(case)
         if case['kind'] == 'bulk':
             return self._run_bulk(case)
         if case['kind'] == 'decseq':
@@ -1590,6 +1747,13 @@ class C19(Prop):
             return '(c19_slots_row %s %s %s %s %s)' % (
                 L.lst([self.OPS[o] for o in case['ops']]), L.lst([self._coq_slot(s) for s in case['slots']]),
                 L.lst(st), L.lst([self._coq_slot(s) for s in obs['input_after']]), L.boolean(obs['rerun_same']))
+        if case['kind'] == 'client':
+            w = obs['written']
+            c = 'CRanksDict' if w == 'hombre' else 'CNothing' if w is None else \
+                '(CSlots %s)' % L.lst([self._coq_pslot(x) for x in w])
+            o = '(inl %s)' % errname(obs['slots']['exc']) if isinstance(obs['slots'], dict) else \
+                '(inr %s)' % L.lst([self._coq_pslot(x) for x in obs['slots']])
+            return '(c19_client_row %s %s %s %s)' % (c, o, L.boolean(obs['as_dict'] == 'ok'), L.boolean(obs['again_same']))
         if case['kind'] == 'bulk':
             names, lets = {}, []
 
@@ -1656,6 +1820,12 @@ class C19(Prop):
                                         L.boolean(obs['same'] and obs['callable']))
         return '(c19_env_row %s %s %s %s)' % (L.boolean(callable_), args, self._coq_kw(kw), o)
 
+    def _coq_pslot(self, s):
+        oz = lambda v: L.opt(None if v is None else L.Z(v))
+        return '(mkPSlot %s %s %s %s %s %s %s %s)' % (
+            L.boolean(s['typed']), oz(s['version']), self._coq_res(s['cores']), self._coq_res(s['gpus']),
+            oz(s['lfs']), oz(s['mem']), oz(s['nidx']), L.opt(None if s['nname'] is None else L.string(s['nname'])))
+
     @staticmethod
     def _coq_dres(state, args_tagged, kw_tagged):
         return '(mkDres %s %s %s)' % (L.Z(state), L.lst([coq_val(a) for a in args_tagged]),
@@ -1716,6 +1886,8 @@ class C19(Prop):
         return L.lst(out)
 
     def model_show(self, case):
+        if case['kind'] == 'client':
+            return None
         if case['kind'] == 'bulk':
             return ('map (fun r => (fst (fst r), snd (fst r))) (snd (submit_calls (verify td_table) %s '
                     '(mkSub (init_store td_table %s) [] 0)))' % (
@@ -1763,6 +1935,8 @@ class C19(Prop):
 
     # ------------------------------------------------------------------ meta
     def nontrivial(self, case, obs):
+        if case['kind'] == 'client':
+            return case['writer'] not in ('none', 'empty')
         if case['kind'] == 'bulk':
             return len(case['srcs']) >= 2
         if case['kind'] in ('decseq', 'dispatch'):
@@ -1782,6 +1956,10 @@ class C19(Prop):
         return callable(FUNCS[case['func']])
 
     def signature(self, case, obs, clause):
+        if case['kind'] == 'client':
+            what = 'raises-' + obs['slots']['exc'] if isinstance(obs['slots'], dict) else \
+                   'as_dict-raises-' + obs['as_dict'] if obs['as_dict'] != 'ok' else 'placement-differs'
+            return '%s:Task.slots:writer=%s:%s' % (clause, case['writer'], what)
         if case['kind'] == 'bulk':
             refused = any(r['exc'] is not None for r in obs['calls'])
             what = 'uid-of-a-sibling' if any(
@@ -1903,6 +2081,12 @@ class C19(Prop):
         return [i for i, _ in data]
 
     def shrink(self, case):
+        if case['kind'] == 'client':
+            if len(case['specs']) > 1:
+                yield dict(case, specs=case['specs'][:1])
+            if case['second_update']:
+                yield dict(case, second_update=None)
+            return
         if case['kind'] == 'bulk':
             srcs, calls = case['srcs'], case['calls']
             if len(calls) > 1:
@@ -2035,7 +2219,10 @@ class C19(Prop):
             c = r['case']
             kinds[c['kind']] = kinds.get(c['kind'], 0) + 1
             o = r['obs'] or {}
-            if c['kind'] == 'bulk':
+            if c['kind'] == 'client':
+                k = 'client:%s:%s' % (c['writer'], 'transported' if c['transported'] else 'in-process')
+                ops[k] = ops.get(k, 0) + 1
+            elif c['kind'] == 'bulk':
                 k = 'bulk:%s' % c.get('shape')
                 ops[k] = ops.get(k, 0) + 1
                 for r in o.get('calls', []):
